@@ -182,10 +182,63 @@ def depends_on_sub(b, op, depth=8):
     return False
 
 
+def reencoded_in_tokenize(ctx):
+    """LspProject::tokenize builds its Ok list as  filter_map(<closure building LspTokenType and converting>)
+    .map(<closure that rebuilds each SemanticToken with subtraction-dependent deltas>).collect()  -- returns (ok, detail)"""
+    tb = ctx.prog.get(LP + "LspProject::tokenize")
+    if not tb:
+        return False, "LspProject::tokenize not found"
+    b = tb[0]
+    closures = {norm(cb.id): cb for cb in ctx.prog.bodies.values() if cb.f.get("parent") == b.id}
+
+    def closure_of(call, argi):
+        p = op_place(call.args[argi]) if len(call.args) > argi else None
+        d = b.single_def(p[0]) if p and not p[1] else None
+        if d and d[0] == "stmt" and d[3][0] == "agg" and d[3][1].get("k") == "closure":
+            return closures.get(norm(d[3][1]["def"]))
+        return None
+    fm = [c for c in b.calls() if (c.callee or "").endswith("Iterator::filter_map")]
+    mp = [c for c in b.calls() if (c.callee or "").endswith("Iterator::map")]
+    co = [c for c in b.calls() if (c.callee or "").endswith("Iterator::collect")]
+    for f in fm:
+        fc = closure_of(f, 1)
+        if not fc or not any(s[0] == "=" and s[2][0] == "agg" and s[2][1].get("adt") == LP + "LspTokenType" for _, _, s in fc.all_stmts()):
+            continue
+        for m in mp:
+            mp0 = op_place(m.args[0])
+            if mp0 is None or b.root(mp0)[0] != f.dest[0]:
+                continue
+            mc = closure_of(m, 1)
+            if not mc:
+                continue
+            good = False
+            for _, _, s in mc.all_stmts():
+                if s[0] == "=" and s[2][0] == "agg" and s[2][1].get("adt") == "lsp_types::semantic_tokens::SemanticToken":
+                    ops = dict(zip(s[2][1]["fields"], s[2][2]))
+                    if depends_on_sub(mc, ops["delta_line"]) and depends_on_sub(mc, ops["delta_start"]):
+                        good = True
+            if not good:
+                continue
+            for c in co:
+                cp = op_place(c.args[0])
+                if cp is not None and b.root(cp)[0] == m.dest[0]:
+                    return True, "filter_map(convert) -> map(re-encode with differences) -> collect"
+    return False, "no filter_map(convert).map(re-encode).collect() chain with subtraction-dependent deltas in LspProject::tokenize"
+
+
 def rule_delta(ctx, rep):
-    r = rep.rule("R-C15-delta", "delta_line / delta_start of every SemanticToken are differences: the stored values data-depend on a subtraction "
-                                "(relative encoding), never on one token's absolute position alone", floor=2, floor_what="delta fields")
-    n = 0
+    r = rep.rule("R-C15-delta", "delta_line / delta_start of the SemanticTokens that reach the response are differences: they data-depend on a "
+                                "subtraction (relative encoding). A conversion that stores absolute positions is accepted only when its input type is built "
+                                "solely inside LspProject::tokenize and tokenize re-encodes every converted token", floor=2, floor_what="delta fields")
+    reenc, detail = reencoded_in_tokenize(ctx)
+    # LspTokenType (the conversion's input) is constructed only inside LspProject::tokenize
+    outside = []
+    for b in ctx.prog.bodies.values():
+        if b.f["crate"] != "ironplcc":
+            continue
+        for _, _, s in b.all_stmts():
+            if s[0] == "=" and s[2][0] == "agg" and s[2][1].get("adt") == LP + "LspTokenType" and not norm(b.id).startswith(LP + "LspProject::tokenize"):
+                outside.append(norm(b.id))
     for b in sorted(ctx.prog.bodies.values(), key=lambda x: x.id):
         if b.f["crate"] != "ironplcc":
             continue
@@ -193,19 +246,19 @@ def rule_delta(ctx, rep):
             if s[0] == "=" and s[2][0] == "agg" and s[2][1].get("adt") == "lsp_types::semantic_tokens::SemanticToken":
                 ops = dict(zip(s[2][1]["fields"], s[2][2]))
                 for fld in ("delta_line", "delta_start"):
-                    n += 1
                     fn = "From<LspTokenType>::from" if "LspTokenType" in b.id else norm(b.id).replace("ironplcc::", "")
                     inst = "%s|SemanticToken.%s" % (fn, fld)
                     if depends_on_sub(b, ops[fld]):
                         r.ok(inst, loc_str(b.f, s[3]))
+                    elif "LspTokenType" in b.id and reenc and not outside:
+                        r.justified(inst, "absolute position, but this conversion's input (LspTokenType) is only built inside LspProject::tokenize, "
+                                          "which re-encodes every converted token: " + detail, loc_str(b.f, s[3]))
                     else:
                         r.finding(inst, loc_str(b.f, s[3]), "%s is an absolute position (no subtraction of the previous token's position feeds it): the response decodes to wrong ranges after the first token" % fld)
-        # field writes after construction
         for i, j, s in b.all_stmts():
             if s[0] == "=":
                 fl = [x for x in s[1][1] if isinstance(x, list) and x[0] == "f"]
                 if fl and fl[-1][3] == "lsp_types::semantic_tokens::SemanticToken" and fl[-1][2] in ("delta_line", "delta_start"):
-                    n += 1
                     inst = "%s|assign SemanticToken.%s" % (norm(b.id).replace("ironplcc::", ""), fl[-1][2])
                     srcs = rvalue_operands(s[2])
                     if s[2][0] == "bin" and s[2][1].startswith("Sub") or any(depends_on_sub(b, o) for o in srcs):
